@@ -6,6 +6,7 @@ import (
 	"time"
 
 	z "github.com/Oudwins/zog"
+	"github.com/Oudwins/zog/zhttp"
 	"github.com/Oudwins/zog/conf"
 	v "github.com/Oudwins/zog/zzverif"
 )
@@ -21,9 +22,9 @@ func C03_Jobs() []string {
 		"float/float64", "float/int", "float/float32", "float/fltstr", "float32/float32",
 		"bool/bool", "bool/words", "bool/int",
 		"string/string", "string/fmt",
-		"time/time", "time/rfc3339", "time/unix-int", "time/unix-int64", "time/format", "time/formatfunc",
+		"time/time", "time/rfc3339", "time/unix-int", "time/unix-int64", "time/format", "time/formatfunc", "time/zero-value",
 		"option/withcoercer-int", "option/withcoercer-string", "option/withcoercer-ptr", "option/withcoercer-slice", "option/global-override", "option/global-override-widths",
-		"slice/list", "slice/scalar", "slice/typed",
+		"slice/list", "slice/scalar", "slice/typed", "slice/repeated-params",
 		"struct/unnamed-untouched", "struct/absent-untouched", "struct/pointer", "struct/pointer-prealloc",
 		"shape/parse/T2/catchint/d4", "shape/parse/T2/catchint/d5", "shape/parse/T2/int/d6", "shape/parse/T3/int/d4", "shape/parse/T3/int/d2", "shape/parse/T4/nested/d5", "shape/parse/T5/slicestruct/d4", "shape/parse/T6/ptrstruct/d2", "shape/parse/T2/slice/d2", "shape/parse/T2/ptr/d1",
 	}
@@ -205,6 +206,25 @@ func C03_Run(job string) {
 			c03ok(len(z.Time(z.Time.Format(layouts[k])).Parse(inputs[k], &d)))
 			want, _ := time.Parse(layouts[k], inputs[k])
 			v.Assert(d.Equal(want), "C03:time-format-layout")
+		case "zero-value":
+			// time.Time{} is a value like any other in Parse (only nil and blank strings are absent):
+			// it is written to the destination and a Default does not replace it
+			def := time.Unix(5000, 0).UTC()
+			var zero time.Time
+			c03ok(len(z.Time().Parse(zero, &d)))
+			v.Assert(d.Equal(zero), "C03:time-identity")
+			d = pre
+			c03ok(len(z.Time().Default(def).Parse(zero, &d)))
+			v.Assert(d.Equal(zero), "C03:time-identity")
+			var ds struct {
+				T time.Time
+				L []time.Time
+				P *time.Time
+			}
+			ds.T = pre
+			c03ok(len(z.Struct(z.Schema{"t": z.Time().Default(def), "l": z.Slice(z.Time().Default(def)), "p": z.Ptr(z.Time())}).
+				Parse(map[string]any{"t": zero, "l": []any{zero, pre}, "p": zero}, &ds)))
+			v.Assert(ds.T.Equal(zero) && len(ds.L) == 2 && ds.L[0].Equal(zero) && ds.P != nil && ds.P.Equal(zero), "C03:time-identity")
 		case "formatfunc":
 			want := time.Unix(123456, 0).UTC()
 			called := 0
@@ -307,6 +327,28 @@ func C03_Run(job string) {
 			var d []int
 			c03ok(len(z.Slice(z.Int()).Parse(x, &d)))
 			v.Assert(len(d) == 1 && d[0] == x, "C03:scalar-to-one-element")
+		case "repeated-params":
+			// a repeated request parameter is a list: one leaf per occurrence, in order, blank
+			// occurrences included (form and query front ends)
+			x, y := 7, -12
+			ta := v.String("ta", 2) // (symbolic request bytes are letters or digits)
+			v.Assume(len(ta) > 0)
+			qs := "ids=7&ids=&ids=-12&tags=" + ta + "&tags=&tags=b&notes=&notes=n"
+			req := c11Request("GET", "", "", qs)
+			if v.Choice("form", 2) == 1 {
+				req = c11Request("POST", "application/x-www-form-urlencoded", qs, "")
+			}
+			var d struct {
+				Ids   []int
+				Tags  []string
+				Notes []*string
+			}
+			errs := z.Struct(z.Schema{"ids": z.Slice(z.Int()), "tags": z.Slice(z.String()), "notes": z.Slice(z.Ptr(z.String()))}).Parse(zhttp.Request(req), &d)
+			c03ok(len(errs))
+			v.Assert(len(d.Ids) == 3 && len(d.Tags) == 3 && len(d.Notes) == 2, "C03:slice-length")
+			v.Assert(len(d.Ids) == 3 && d.Ids[0] == x && d.Ids[1] == 0 && d.Ids[2] == y, "C03:slice-order-and-values")
+			v.Assert(len(d.Tags) == 3 && d.Tags[0] == ta && d.Tags[1] == "" && d.Tags[2] == "b", "C03:slice-order-and-values")
+			v.Assert(len(d.Notes) == 2 && d.Notes[0] == nil && d.Notes[1] != nil && *d.Notes[1] == "n", "C03:slice-order-and-values")
 		case "typed":
 			a1, a2 := visible("a", 2), visible("b", 2)
 			v.Assume(v.And(len(a1) > 0, len(a2) > 0))
